@@ -12,7 +12,9 @@ package main
 // calls may be answered for any root that was current while it was served.
 
 import (
+	"bytes"
 	"fmt"
+	"net/http"
 	"net/http/httptest"
 	"sync"
 	"time"
@@ -50,7 +52,7 @@ func (k *gatedKey) Sign(data []byte) ([]byte, error) {
 
 // schedule steps
 type pstep struct {
-	Op    string `json:"op"`              // set | start | release | query
+	Op    string `json:"op"`              // set | start | release | query | split
 	Root  int    `json:"root,omitempty"`  // set: index into the roots, -1 = no root
 	N     int    `json:"n,omitempty"`     // start: requests to put in flight; query: sequential requests
 	Which int    `json:"which,omitempty"` // release: index of the in-flight request (in start order)
@@ -84,6 +86,8 @@ func schedName(steps []pstep) string {
 			s += fmt.Sprintf("Release(%d)", st.Which)
 		case "query":
 			s += fmt.Sprintf("Query(%d)", st.N)
+		case "split":
+			s += fmt.Sprintf("SplitWrite(SetRoot(%d)+Query)", st.Root)
 		}
 	}
 	return s
@@ -209,6 +213,29 @@ func runPubSched(c *vlib.Ctx, id *keypool.Identity, topic string, roots []cid.Ci
 				r := request()
 				judge(rid, r, map[int]bool{current: true}, fmt.Sprintf("started after SetRoot(%d) returned", current))
 			}
+		case "split":
+			// a head request whose ResponseWriter takes the body in two halves; between the
+			// halves SetRoot(st.Root) is called and another head request is served
+			rid := nextID
+			nextID++
+			events = append(events, fmt.Sprintf("(ORead %d)", rid))
+			before := current
+			w := &splitWriter{hdr: http.Header{}}
+			w.between = func() {
+				pub.SetRoot(rootOf(st.Root))
+				current = st.Root
+				events = append(events, fmt.Sprintf("(OSetRoot %s)", coqOptCid(rootOf(current))))
+				nid := nextID
+				nextID++
+				events = append(events, fmt.Sprintf("(ORead %d)", nid))
+				judge(nid, request(), map[int]bool{current: true}, fmt.Sprintf("started after SetRoot(%d) returned, while another response was half written", current))
+			}
+			pub.ServeHTTP(w, httptest.NewRequest("GET", headPath, nil))
+			code := w.code
+			if code == 0 {
+				code = 200
+			}
+			judge(rid, pubResp{code, w.buf.Bytes()}, map[int]bool{before: true, current: true}, "response written in two halves across SetRoot and another head request")
 		}
 	}
 	// release whatever is still waiting so that no goroutine is left behind
@@ -258,6 +285,8 @@ func pubSchedules() [][]pstep {
 		{set(0), start(1), set(0), rel(0), q(1)},
 		{set(0), start(1), set(1), start(1), set(2), rel(0), q(1), rel(1), q(1)},
 		{set(0), q(2), set(1), q(2), set(-1), q(1)},
+		{set(0), pstep{Op: "split", Root: 1}, q(1)},
+		{set(0), q(1), pstep{Op: "split", Root: 2}, pstep{Op: "split", Root: 0}, q(1)},
 	}
 }
 
@@ -274,4 +303,28 @@ func genPublisherSchedules(c *vlib.Ctx) {
 			}
 		}
 	}
+}
+
+// splitWriter takes the first Write of a response in two halves and runs `between` in the
+// middle (a slow client / a chunking transport: the handler's buffer is still being read)
+type splitWriter struct {
+	hdr     http.Header
+	code    int
+	buf     bytes.Buffer
+	between func()
+	done    bool
+}
+
+func (w *splitWriter) Header() http.Header { return w.hdr }
+func (w *splitWriter) WriteHeader(c int)   { w.code = c }
+func (w *splitWriter) Write(p []byte) (int, error) {
+	if w.done || len(p) < 2 {
+		return w.buf.Write(p)
+	}
+	w.done = true
+	half := len(p) / 2
+	w.buf.Write(p[:half])
+	w.between()
+	w.buf.Write(p[half:])
+	return len(p), nil
 }
